@@ -26,8 +26,12 @@ Definition check_neg (c : neg_case) : bool :=
   | None => false
   end.
 
-(* --- cmp: `{{ [a == b, a != b, a < b, a <= b, a > b, a >= b] | probe }}` *)
-Record cmp_case := { c_l : value; c_r : value; c_impl : res value }.
+(* --- cmp: `{{ [a == b, a != b, a < b, a <= b, a > b, a >= b] | probe }}` and, for two numbers,
+       the Rust API on the same pair: `a.partial_cmp(&b)`, `a.cmp(&b)` (Ord, what sort / min / max
+       use), `a == b` (PartialEq).  NaN operands of either sign and any payload are all S754_nan
+       here: the code may not look at them (the harness notes the bit patterns in a comment). *)
+Record cmp_case := { c_l : value; c_r : value; c_impl : res value;
+                     c_api : option (option comparison * comparison * bool) }.
 
 Definition all_cmpops := [OpEq; OpNe; OpLt; OpLe; OpGt; OpGe].
 Fixpoint collect_res (l : list (res value)) : res (list value) :=
@@ -35,11 +39,56 @@ Fixpoint collect_res (l : list (res value)) : res (list value) :=
   | [] => ROk []
   | r :: t => res_bind r (fun v => res_bind (collect_res t) (fun vs => ROk (v :: vs)))
   end.
-Definition model_cmp (c : cmp_case) : res value :=
-  res_bind (collect_res (map (fun op => vm_cmp op (c_l c) (c_r c)) all_cmpops))
-           (fun vs => ROk (VArr vs)).
+Definition cmp_all (a b : value) : res value :=
+  res_bind (collect_res (map (fun op => vm_cmp op a b) all_cmpops)) (fun vs => ROk (VArr vs)).
+
+Definition cmpn_eqb (a b : comparison) : bool :=
+  match a, b with Eq, Eq | Lt, Lt | Gt, Gt => true | _, _ => false end.
+Definition ocmp_eqb (a b : option comparison) : bool :=
+  match a, b with
+  | Some x, Some y => cmpn_eqb x y
+  | None, None => true
+  | _, _ => false
+  end.
+
+(* Ord::cmp on two numbers: partial_cmp when it answers (type_order ties on two numbers) *)
+Definition num_ord_cmp (a b : value) : comparison :=
+  match num_partial_cmp a b with Some o => o | None => Eq end.
+
+Definition model_cmp (c : cmp_case) : res value * option (option comparison * comparison * bool) :=
+  (cmp_all (c_l c) (c_r c),
+   match c_api c with
+   | None => None
+   | Some _ => Some (num_partial_cmp (c_l c) (c_r c), num_ord_cmp (c_l c) (c_r c),
+                     num_eq (c_l c) (c_r c))
+   end).
 Definition check_cmp (c : cmp_case) : bool :=
-  res_eqb value_eqb_syn (model_cmp c) (c_impl c).
+  res_eqb value_eqb_syn (cmp_all (c_l c) (c_r c)) (c_impl c) &&
+  match c_api c with
+  | None => true
+  | Some (pc, o, e) =>
+      ocmp_eqb (num_partial_cmp (c_l c) (c_r c)) pc &&
+      cmpn_eqb (num_ord_cmp (c_l c) (c_r c)) o &&
+      Bool.eqb (num_eq (c_l c) (c_r c)) e
+  end.
+
+(* --- cmpx: the left operand is computed inside the template, so that results such as -0.0
+       (`0.0 * -1`) and the NaN the hardware produces (`inf - inf`) meet the comparison operators
+       exactly as the VM left them on the stack:
+       `{{ [(a OP b) == c, (a OP b) != c, ... >= c] | probe }}`, or with the sides swapped *)
+Record cmpx_case := { x_op : binop; x_a : value; x_b : value; x_c : value; x_swap : bool;
+                      x_impl : res value }.
+Definition model_cmpx (c : cmpx_case) : res value :=
+  match vm_binop (x_op c) (x_a c) (x_b c) with
+  | Some (ROk v) => if x_swap c then cmp_all (x_c c) v else cmp_all v (x_c c)
+  | Some (RErr e) => RErr e
+  | None => RErr ErrOther
+  end.
+Definition check_cmpx (c : cmpx_case) : bool :=
+  match vm_binop (x_op c) (x_a c) (x_b c) with
+  | None => false
+  | Some _ => res_eqb value_eqb_syn (model_cmpx c) (x_impl c)
+  end.
 
 (* --- prim: the f64 primitives of the model against Rust's own; kind 0 = integer `as f64`,
        1 = floor, 2 = `as i128`, 3 = `as u128`, 4 = x % y, 5 = trunc, 6 = rem_euclid,
